@@ -10,6 +10,12 @@
 //! RemoveDiscountPrice; the attached whitelist's window and price as instantiated; governance's
 //! airdrop price and fee rates from creation + sudo) and computes the price in force from the
 //! ledger and the clock (`Ledger::price_in_force`).  Monitors judge against that.
+//! TIERED whitelists (tiered-whitelist, -flex, -merkletree as the variant allows; 1..3 stages with
+//! their own prices, touching or with gaps, before / across / after the public start): the price
+//! in force is the price of the EARLIEST stage whose inclusive window [start, end] contains the
+//! block time (so the earlier stage still rules at the hand-over instant of touching stages);
+//! histories probe T-1 ns / T / T+1 ns of the stage edges with exact payments at every stage's
+//! price, the price in force +-1 and the exact one.
 //! Histories are generated *adaptively*: before every mint the generator computes the ledger
 //! price and sends exact payments for every OTHER price some principal set (list, discount,
 //! whitelist, what the minter itself reports if different; sometimes +-1), then the sweep
@@ -2318,7 +2324,7 @@ pub fn run(a: &Args) {
     balance_shards(&mut coq_cases, 6);
     balance_shards(&mut coq_cases2, 3);
     rep.distinct_nontrivial = distinct.len() as u64;
-    rep.rule = "sale worlds on each of the six vending minters, the three open-edition minters and the base minter, created through their factories with governance-chosen price / mint fee bps / airdrop price / airdrop fee bps (moved by sudo during the history), native or IBC denom, with/without payment address, optional whitelist with its own price and a window before / across / long after the public start, discount set/removed and price lowered after the start (vending), capped/uncapped (open edition); the price in force comes from the harness's own ledger of the principals' accepted operations and the clock (never from the minter's MintPrice answer); before every mint exact payments for every other candidate price (list, discount, whitelist, minter-reported) are sent, then the sweep price-1, price+1, wrong denom, two coins, nothing (a coin at price 0), exact is sent; evaluations = minter steps executed on the real contracts; distinct_nontrivial = distinct (variant, mint kind, price, denom, fee bps, seller) among SUCCESSFUL mints".into();
+    rep.rule = "sale worlds on each of the six vending minters, the three open-edition minters and the base minter, created through their factories with governance-chosen price / mint fee bps / airdrop price / airdrop fee bps (moved by sudo during the history), native or IBC denom, with/without payment address, optional whitelist with its own price and a window before / across / long after the public start, or a TIERED whitelist (1-3 stages with their own prices, touching or with gaps; price in force = the earliest stage whose inclusive window contains the block time; probes at T-1ns/T/T+1ns of the stage edges with payments at every stage's price and +-1), discount set/removed and price lowered after the start (vending), capped/uncapped (open edition); the price in force comes from the harness's own ledger of the principals' accepted operations and the clock (never from the minter's MintPrice answer); before every mint exact payments for every other candidate price (list, discount, whitelist, minter-reported) are sent, then the sweep price-1, price+1, wrong denom, two coins, nothing (a coin at price 0), exact is sent; evaluations = minter steps executed on the real contracts; distinct_nontrivial = distinct (variant, mint kind, price, denom, fee bps, seller) among SUCCESSFUL mints".into();
     if !coq_cases.is_empty() {
         out.write_cases("C02", "From LP Require Import Num Pay Sg1 Bank MinterVending SaleCorr.", "scase", "sale_check", &coq_cases, 6, &mut rep);
     }
